@@ -33,6 +33,8 @@ struct CallInfo {
     pub(crate) line_context_name: String,
     // true only between the end of an iteration and the loop line it jumps back to
     pub(crate) resuming: bool,
+    // the amount of running function invocations when the loop started, a loop belongs to one invocation
+    pub(crate) call_depth: usize,
 }
 
 fn serialize_forin_meta_info(
@@ -87,6 +89,10 @@ fn serialize_call_info(call_info: &CallInfo, sub_state: &mut HashMap<String, Sta
         "resuming".to_string(),
         StateValue::Boolean(call_info.resuming),
     );
+    sub_state.insert(
+        "call_depth".to_string(),
+        StateValue::UnsignedNumber(call_info.call_depth),
+    );
 }
 
 fn deserialize_call_info(sub_state: &mut HashMap<String, StateValue>) -> Option<CallInfo> {
@@ -120,11 +126,17 @@ fn deserialize_call_info(sub_state: &mut HashMap<String, StateValue>) -> Option<
         _ => false,
     };
 
+    let call_depth = match sub_state.get("call_depth") {
+        Some(StateValue::UnsignedNumber(value)) => *value,
+        _ => 0,
+    };
+
     Some(CallInfo {
         iteration,
         meta_info,
         line_context_name,
         resuming,
+        call_depth,
     })
 }
 
@@ -232,6 +244,7 @@ fn pop_call_info_for_line(
     recursive: bool,
 ) -> Option<CallInfo> {
     let line_context_name = get_line_context_name(state);
+    let call_depth = function::get_call_stack_depth(state);
     let forin_state = get_core_sub_state_for_command(state, FORIN_STATE_KEY.to_string());
     let call_info_stack = get_list(CALL_STACK_STATE_KEY.to_string(), forin_state);
 
@@ -242,6 +255,7 @@ fn pop_call_info_for_line(
                     Some(call_info) => {
                         if (call_info.meta_info.start == line || call_info.meta_info.end == line)
                             && call_info.line_context_name == line_context_name
+                            && call_info.call_depth == call_depth
                         {
                             Some(call_info)
                         } else if recursive {
@@ -356,12 +370,14 @@ impl Command for ForInCommand {
                     match forin_meta_info_result {
                         Ok(forin_meta_info) => {
                             let line_context_name = get_line_context_name(context.state);
+                            let call_depth = function::get_call_stack_depth(context.state);
 
                             CallInfo {
                                 iteration: 0,
                                 meta_info: forin_meta_info,
                                 line_context_name,
                                 resuming: false,
+                                call_depth,
                             }
                         }
                         Err(error) => return CommandResult::Crash(error.to_string()),
@@ -370,6 +386,7 @@ impl Command for ForInCommand {
             };
 
             let iteration = call_info.iteration;
+            let call_depth = call_info.call_depth;
             let forin_meta_info = call_info.meta_info;
 
             let handle = &context.arguments[2];
@@ -383,6 +400,7 @@ impl Command for ForInCommand {
                             meta_info: forin_meta_info,
                             line_context_name,
                             resuming: false,
+                            call_depth,
                         },
                         context.state,
                     );
